@@ -88,7 +88,7 @@ def prepare_scratch(group, scratch):
             missing.append(src)
             continue
         with open(spath, "a") as f:
-            f.write('\n#[cfg(kani)]\n#[path = "%s"]\nmod verif_kani;\n' % hpath)
+            f.write('\n#[cfg(kani)]\n#[path = "%s"]\npub(crate) mod verif_kani;\n' % hpath)
         injected.append((src, hfile))
     # offline config
     os.makedirs(os.path.join(scratch, ".cargo"), exist_ok=True)
@@ -151,6 +151,8 @@ def parse_kani_output(text):
             m = _VERDICT.match(ln)
             if m:
                 h["status"] = m.group(1)
+                if m.group(1) == "FAILED" and h["checks_total"] == 0 and not h["failed_desc"]:
+                    h["status"] = "TIMEOUT"      # killed / crashed without a result: no verdict
             if ln.startswith("CBMC timed out") or "out of memory" in ln.lower():
                 h["status"] = "TIMEOUT"
             m = _TIME.match(ln)
@@ -176,8 +178,28 @@ def parse_kani_output(text):
     return res
 
 
+def _rss_watchdog(limit_gb):
+    """kills any cbmc process whose resident set exceeds the limit (the harness is then reported without a verdict:
+    undecided, never an alarm); keeps a runaway query from taking the machine down (no swap here)"""
+    import threading
+    stop = threading.Event()
+
+    def loop():
+        while not stop.wait(3.0):
+            try:
+                out = subprocess.run(["ps", "-eo", "pid,rss,comm"], stdout=subprocess.PIPE, text=True).stdout
+                for ln in out.splitlines()[1:]:
+                    f = ln.split()
+                    if len(f) >= 3 and f[2] == "cbmc" and int(f[1]) > limit_gb * 1024 * 1024:
+                        subprocess.run(["kill", "-9", f[0]])
+            except Exception:
+                pass
+    threading.Thread(target=loop, daemon=True).start()
+    return stop
+
+
 def run_group(group, harnesses, timeout_s=900, jobs=None, playback=False, extra_args=None,
-              unwind=None, keep_scratch=False, log_path=None, harness_timeout_s=240):
+              unwind=None, keep_scratch=False, log_path=None, harness_timeout_s=240, rss_limit_gb=10):
     """Run the given harnesses of a group against the current /repo working tree."""
     g = GROUPS[group]
     t0 = time.time()
@@ -211,6 +233,7 @@ def run_group(group, harnesses, timeout_s=900, jobs=None, playback=False, extra_
         env = dict(os.environ)
         env["CARGO_NET_OFFLINE"] = "true"
         r.cmd = "cd <scratch copy of /repo>/%s && %s" % (g["crate"], " ".join(cmd))
+        stop_watch = _rss_watchdog(rss_limit_gb)
         try:
             p = subprocess.run(cmd, cwd=os.path.join(repo_copy, g["crate"]), env=env,
                                stdout=subprocess.PIPE, stderr=subprocess.STDOUT, text=True,
@@ -224,6 +247,7 @@ def run_group(group, harnesses, timeout_s=900, jobs=None, playback=False, extra_
             out += "\n[kx] TIMEOUT after %ds\n" % timeout_s
             rc = -9
             subprocess.run(["pkill", "-x", "cbmc"]); subprocess.run(["pkill", "-x", "kani-driver"])
+        stop_watch.set()
         if log_path:
             with open(log_path, "w") as f:
                 f.write(out)
